@@ -481,8 +481,30 @@ func main() {
 		if got == pe.want {
 			continue
 		}
-		if pe.what == "OFF" { // the model appends branch, zeros and register sum
+		if pe.what == "OFF" { // the model appends branch, zeros, register sum, exact-specification branch and raw estimate
 			if g := strings.SplitN(got, " ", 4); len(g) >= 3 && g[0]+" "+g[1]+" "+g[2] == pe.want {
+				// the exact rational specification (Golib.HLL.EstSpec) against the float implementation
+				if f := strings.Fields(got); len(f) >= 8 {
+					if f[3] == f[6] {
+						rep.Count("exact-spec:same-branch-as-float")
+					} else {
+						rep.Count("exact-spec:branch-differs-from-float")
+						rep.Note("float and exact small-range decisions differ (boundary rounding) at p=%d regSum=%s", pe.c.p, f[5])
+					}
+					if f[3] == "R" && f[6] == "R" {
+						impl, _ := strconv.ParseUint(f[2], 10, 64)
+						exact, _ := strconv.ParseUint(f[7], 10, 64)
+						switch {
+						case impl == exact:
+							rep.Count("exact-spec:raw-estimate-equal")
+						case impl+1 == exact || exact+1 == impl:
+							rep.Count("exact-spec:raw-estimate-off-by-one-rounding")
+						default:
+							rep.Fail("correspondence", "Cardinality:differs-from-exact-specification",
+								fmt.Sprintf("Cardinality() = %d, exact alpha·m²/Σ2^-M[j] rounds to %d", impl, exact), replayOf(pe.c, nil))
+						}
+					}
+				}
 				continue
 			}
 		}
@@ -803,6 +825,18 @@ func checkCase(c *caseT, r *vh.Rng, add func(pending), fail func(kind, key, summ
 	spec := packRegs(p, specRegs(p, hashes))
 	if !bytes.Equal(spec, base.bytes) {
 		localiseRegisterFailure(c, hashes, fail)
+	}
+	// the model's packing of the abstract registers (bytesOfRegs) against GetBytes()
+	if p <= 10 {
+		rs := specRegs(p, hashes)
+		var sb strings.Builder
+		for i, v := range rs {
+			if i > 0 {
+				sb.WriteByte(',')
+			}
+			sb.WriteString(strconv.Itoa(int(v)))
+		}
+		add(pending{line: fmt.Sprintf("PACK %d %s", p, sb.String()), want: vh.Hex(base.bytes), c: c, what: "PACK"})
 	}
 	// direct: the boolean of Offer = "the register grew"
 	{
@@ -1225,6 +1259,9 @@ func classify(rep *vh.Report, pe pending, got string) {
 			return
 		}
 		rep.Fail("correspondence", "offer:model-answer", "unexpected model answer", map[string]interface{}{"line": short(pe.line), "model": short(got)})
+	case "PACK":
+		rep.Fail("correspondence", "bytes:differ-from-the-packing-of-the-registers", "GetBytes() is not the model's packing (bytesOfRegs) of the pointwise-maximum registers",
+			replayOf(pe.c, map[string]interface{}{"implementation": short(pe.want), "model": short(got)}))
 	case "LIN":
 		rep.Fail("correspondence", "Cardinality:linear-counting-differs-from-model", "linear-counting value differs from the model's m·log(m/V)",
 			map[string]interface{}{"line": pe.line, "implementation": pe.want, "model": got, "info": pe.info})
